@@ -101,6 +101,7 @@ Call(f, args, kw) ==   \* args: sequence of values; kw: sequence of <<name, valu
          ELSE IF n = 1 /\ kw = <<>> THEN
               (IF IsNum(a) THEN I(Num(a)) ELSE IF a.t = "flt" THEN I(IF a.v >= 0 THEN a.v \div 4 ELSE 0 - ((0 - a.v) \div 4))      \* int() truncates towards zero
                ELSE IF a.t = "str" THEN (IF DigitsVal(a.v, 10) >= 0 THEN I(DigitsVal(a.v, 10)) ELSE Err) ELSE Err)
+         ELSE IF \E i \in 1..Len(kw) : kw[i][1] # "base" THEN Err
          ELSE IF (n = 2 /\ kw = <<>>) \/ (n = 1 /\ Len(kw) = 1 /\ kw[1][1] = "base") THEN
               LET bs == IF n = 2 THEN b ELSE kw[1][2] IN
               IF ~IsNum(bs) THEN Err
@@ -109,7 +110,10 @@ Call(f, args, kw) ==   \* args: sequence of values; kw: sequence of <<name, valu
               ELSE IF DigitsVal(a.v, Num(bs)) >= 0 THEN I(DigitsVal(a.v, Num(bs))) ELSE Err
          ELSE Err
     [] f \in {"min", "max"} ->
-         IF kw # <<>> THEN Unspec
+         IF kw # <<>> THEN (IF \E i \in 1..Len(kw) : kw[i][1] \notin {"default", "key"} THEN Err          \* unknown keyword
+                           ELSE IF n >= 2 /\ (\E i \in 1..Len(kw) : kw[i][1] = "default") THEN Err     \* default= with several positional arguments
+                           ELSE IF n = 1 /\ ~IsSeq(a) THEN Err                                          \* a single non-iterable argument
+                           ELSE Unspec)
          ELSE IF n = 2 THEN
               LET c == Cmp("<", b, a) IN     \* min keeps a unless b < a ; max keeps a unless b > a
               LET d == IF f = "min" THEN c ELSE Cmp(">", b, a) IN
@@ -120,13 +124,14 @@ Call(f, args, kw) ==   \* args: sequence of values; kw: sequence of <<name, valu
                                       ELSE IF a.t = "flt" THEN LET fl == a.v \div 4  rem == FMod(a.v, 4) IN       \* round half to even
                                                                I(IF rem < 2 THEN fl ELSE IF rem > 2 THEN fl + 1 ELSE IF FMod(fl, 2) = 0 THEN fl ELSE fl + 1)
                                       ELSE Err)
+         ELSE IF \E i \in 1..Len(kw) : kw[i][1] \notin {"ndigits", "number"} THEN Err
          ELSE IF (n = 2 /\ kw = <<>>) \/ (n = 1 /\ Len(kw) = 1 /\ kw[1][1] = "ndigits") THEN
               LET nd == IF n = 2 THEN b ELSE kw[1][2] IN
               IF ~IsNum(a) THEN (IF a.t = "flt" THEN Unspec ELSE Err)
               ELSE IF ~IsNum(nd) THEN Err
               ELSE IF Num(nd) < 0 THEN Unspec ELSE I(Num(a))
          ELSE Err
-    [] f = "sum" -> IF kw # <<>> THEN Unspec ELSE IF n # 1 THEN (IF n = 0 THEN Err ELSE Unspec)
+    [] f = "sum" -> IF \E i \in 1..Len(kw) : kw[i][1] # "start" THEN Err ELSE IF kw # <<>> THEN Unspec ELSE IF n # 1 THEN (IF n = 0 THEN Err ELSE Unspec)
                     ELSE IF a.t \in {"list", "tuple"} THEN (IF \A i \in 1..Len(a.v) : IsNum(a.v[i]) THEN Guard(SumSeq(a.v))
                                                              ELSE IF \E i \in 1..Len(a.v) : a.v[i].t = "flt" THEN Unspec ELSE Err)
                     ELSE Err
@@ -190,7 +195,12 @@ Floats == {[k |-> "bin", op |-> o, l |-> a, r |-> b] : o \in BinOps, a \in FLeav
           \cup {[k |-> "call", f |-> f, args |-> <<a, b>>, kw |-> <<>>] : f \in {"min", "max"}, a \in FLeaves, b \in FLeaves \cup NLeaves}
           \cup {[k |-> "bool", op |-> o, xs |-> <<a, b>>] : o \in {"and", "or"}, a \in FLeaves, b \in NLeaves}
           \cup {[k |-> "bin", op |-> "+", l |-> [k |-> "bin", op |-> "*", l |-> a, r |-> b], r |-> c] : a \in {K(Fl(2)), K(Fl(-30))}, b \in {K(I(3)), K(Fl(8))}, c \in {K(Fl(9)), K(I(-2))}}
-Programs == Leaves \cup D1 \cup Chains \cup Ifs \cup FLeaves \cup Floats
+(* keyword misuse: names the function does not take, or default= where Python refuses it - Python raises TypeError, the engine must fail *)
+KwMisuse == {[k |-> "call", f |-> f, args |-> <<a>>, kw |-> <<<<nm, b>>>>] : f \in {"abs", "len", "bool", "int", "round", "sum", "min", "max"}, nm \in {"x", "default", "base", "key"},
+                                                                          a \in {K(I(-1)), K(I(3)), K(S("a"))}, b \in {K(I(0)), K(I(2))}}
+            \cup {[k |-> "call", f |-> f, args |-> <<a, b>>, kw |-> <<<<"default", K(I(0))>>>>] : f \in {"min", "max"}, a \in {K(I(1)), K(I(3))}, b \in {K(I(2))}}
+            \cup {[k |-> "call", f |-> f, args |-> <<>>, kw |-> <<<<"x", K(I(-1))>>>>] : f \in {"abs", "len", "bool", "round"}}
+Programs == Leaves \cup D1 \cup Chains \cup Ifs \cup FLeaves \cup Floats \cup KwMisuse
 (* a second level: every form over a few leaves and a few depth-1 programs *)
 MidS == {[k |-> "bin", op |-> "+", l |-> K(I(2)), r |-> K(I(2))], [k |-> "bin", op |-> "//", l |-> K(I(2)), r |-> K(I(0))],
          [k |-> "bin", op |-> "*", l |-> K(S("a")), r |-> K(I(2))], [k |-> "bool", op |-> "and", xs |-> <<K(I(2)), K(I(0))>>],
